@@ -767,6 +767,14 @@ class Interp:
             return getattr(f.d, f.name)(*args)
         if hasattr(f, "node") and hasattr(f, "module"):
             return self.call_f(f, list(args))
+        if isinstance(f, type) and f in (int, float, str, bool, len.__class__) or f in (int, float, str, bool, abs, len, repr):
+            # a builtin used as a function value (`key=int`, `map(str, ...)`)
+            if any(isinstance(a, Node) for a in args):
+                raise AnalysisError(f"absint: builtin {getattr(f, '__name__', f)} applied to a sample node")
+            try:
+                return f(*args)
+            except (TypeError, ValueError) as ex:
+                raise Raised(f"{type(ex).__name__}: {str(ex)[:60]}")
         raise AnalysisError("absint: value is not callable")
 
     def construct(self, cls: str, args, kwargs):
